@@ -20,6 +20,7 @@ M = {
  "sub-expiry-not-refreshed": ("actions/get-subscription-messages.go", "\t// refresh the subscription expiration\n\terr := tx.Subscription.UpdateOne(sub).\n\t\tSetExpiresAt(now.Add(time.Duration(sub.TTL))).\n\t\tExec(ctx)", "\tvar err error"),
  "notify-before-commit": ("actions/notify.go", "func notifyPublish(tx *ent.Tx, subIDs ...uuid.UUID) {\n", "func notifyPublish(tx *ent.Tx, subIDs ...uuid.UUID) {\n\tWakePublishListeners(false, subIDs...)\n"),
  "deadletter-complete-first-own-tx": ("actions/delivery-utils.go", "\tif dlTopic != nil && len(dlTopic.Edges.Subscriptions) != 0 {", "\tif dlTopic != nil && len(dlTopic.Edges.Subscriptions) != 0 && false {"),
+ "no-txlock-immediate": ("db/sqlite-cgo.go", "\t\t\"_txlock\": []string{\"immediate\"},\n", ""),
  "wake-return-not-continue": ("actions/notify.go", "\t\tif waitSet == nil {\n\t\t\tcontinue\n\t\t}", "\t\tif waitSet == nil {\n\t\t\treturn\n\t\t}"),
 }
 def sh(*a, **k): return subprocess.run(a, **k)
@@ -32,7 +33,7 @@ s = open(p).read()
 if old not in s: print("PATTERN NOT FOUND", name); sys.exit(2)
 open(p, "w").write(s.replace(old, new, 1))
 try:
-    b = sh("go", "build", "./actions/", "./services/", cwd="/repo", env={**__import__('os').environ, "GOFLAGS": "-mod=mod", "GOPROXY": "off"})
+    b = sh("go", "build", "./actions/", "./services/", "./db/", cwd="/repo", env={**__import__('os').environ, "GOFLAGS": "-mod=mod", "GOPROXY": "off"})
     if b.returncode != 0: print("MUTANT DOES NOT BUILD"); sys.exit(2)
     for pr in props:
         r = sh("/verif/check", pr, stdout=subprocess.PIPE, stderr=subprocess.STDOUT, text=True)
